@@ -23,6 +23,10 @@ class PyRaise(Exception):
         self.exc = exc
 
 
+class PyBreak(Exception):
+    pass
+
+
 class LoopEnd(Exception):
     """End of the arbitrary-iteration execution of a loop body."""
 
@@ -172,6 +176,7 @@ class Exec:
         self.last_clock = None
         self.oracles = []
         self.call_results = {}
+        self.emissions = []
         con = self.con
         env = {}
         self.argvals = {}
@@ -234,9 +239,26 @@ class Exec:
                 continue
             self.oblige("frame.%s" % name, comp_eq(name, a, b), frame_tags(name, self.con.tags), kind="frame")
 
+    DIRECT_RESPONSES = ("allocated", "claimed", "released", "closed")
+
+    def final_obligations(self):
+        """C09: a direct response is sent after its effects - nothing is written to either database
+        between the emission of allocated / claimed / released / closed and the end of the handler"""
+        for (line, ftype, st_then) in self.emissions:
+            if ftype not in self.DIRECT_RESPONSES:
+                continue
+            for name in self.st.components():
+                if not (name.startswith("ch.") or name.startswith("us.") or name.startswith("in_tx.")):
+                    continue
+                a, b = st_then.get_comp(name), self.st.get_comp(name)
+                if ident(a, b):
+                    continue
+                self.oblige("emit@%d.final.%s" % (line, name), comp_eq(name, a, b), ["C09"], line, "emit")
+
     def finish_normal(self, result):
         self.p.exit = ("return", result)
         con = self.con
+        self.final_obligations()
         if getattr(con, "ghost_exit", None):
             con.ghost_exit(self)
         c = Ctx(self.pre, self.st, self.argvals, self.self_ref, con.cls, result=result, ghosts=self.call_results)
@@ -285,6 +307,8 @@ class Exec:
             return
         if isinstance(s, ast.Pass):
             return
+        if isinstance(s, ast.Break):
+            raise PyBreak()
         if isinstance(s, ast.Assign):
             v = self.eval(s.value, env)
             for t in s.targets:
@@ -923,7 +947,19 @@ class Exec:
             return res
         k = kind_of(elt.val) if isinstance(elt, VOpt) else kind_of(elt)
         if k not in ("str", "int", "real", "bool", "json"):
-            raise Unsupported("filtered comprehension element %r at %d" % (elt, e.lineno))
+            # a filtered list of structured elements: out[j] = elt(src[j]) with src strictly increasing
+            # over exactly the indices that pass the filter (the semantics of a comprehension)
+            n2 = fresh("filt.n", INT)
+            src = fresh("filt.src", ArraySort(INT, INT))
+            pos = fresh("filt.pos", ArraySort(INT, INT))
+            self.assume(And(n2 >= 0, n2 <= seq.n))
+            self.assume(FA([INT], lambda j: Implies(And(0 <= j, j < n2), And(0 <= src[j], src[j] < seq.n,
+                                                                               z3.substitute(cond, (i, src[j])), pos[src[j]] == j)),
+                           pats=lambda j: [src[j]]))
+            self.assume(FA([INT, INT], lambda j, l: Implies(And(0 <= j, j < l, l < n2), src[j] < src[l])))
+            self.assume(FA([INT], lambda x: Implies(And(0 <= x, x < seq.n, z3.substitute(cond, (i, x))),
+                                                    And(0 <= pos[x], pos[x] < n2, src[pos[x]] == x)), pats=lambda x: [pos[x]]))
+            return VList(n2, lambda j, elt=elt, i=i: vsubst(elt, i, src[j]))
         if isinstance(elt, VOpt):
             # elements that pass the filter and are None cannot equal a scalar
             def contains(y, elt=elt, i=i, cond=cond, seq=seq, k=k):
